@@ -411,6 +411,7 @@ type Explorer struct {
 	cond  *sync.Cond
 	stop  bool
 	t0    time.Time
+	sem   chan struct{} // global cap on concurrently running paths
 }
 
 func (ex *Explorer) pop() ([]decision, bool) {
@@ -513,7 +514,13 @@ func (ex *Explorer) worker() {
 			nc.branchTO, nc.assertTO, nc.crossEach = ctx.branchTO, ctx.assertTO, ctx.crossEach
 			ctx = nc
 		}
+		if ex.sem != nil {
+			ex.sem <- struct{}{}
+		}
 		alts := ex.runPath(ts, ctx, prefix)
+		if ex.sem != nil {
+			<-ex.sem
+		}
 		npaths++
 		ex.res.mu.Lock()
 		ex.res.Paths++
@@ -537,7 +544,7 @@ func (ex *Explorer) runPath(ts *TermStore, ctx *Ctx, prefix []decision) (alts []
 	run := &pathRun{prefix: prefix}
 	in := &Interp{P: ex.P, ts: ts, ctx: ctx, run: run, cfg: ex.cfg, result: ex.res,
 		globals: map[*ssa.Global]*value{}, pkgInit: map[*ssa.Package]int{},
-		maxSteps: ex.cfg.MaxSteps, maxDepth: ex.cfg.MaxDepth, ghost: map[string]value{}, jsonToks: map[string]value{}}
+		maxSteps: ex.cfg.MaxSteps, maxDepth: ex.cfg.MaxDepth, ghost: map[string]value{}, jsonToks: map[string]value{}, funcsSeen: map[*ssa.Function]bool{}}
 	end := "done"
 	defer func() {
 		if r := recover(); r != nil {
@@ -570,6 +577,12 @@ func (ex *Explorer) runPath(ts *TermStore, ctx *Ctx, prefix []decision) (alts []
 				ex.res.incomplete(fmt.Sprintf("engine panic: %v at %s\n%s", r, in.where(), trimStack(debug.Stack())))
 			}
 		}
+		ex.P.mu.Lock()
+		for f := range in.funcsSeen {
+			ex.P.funcsUsed[f] = true
+		}
+		ex.P.mu.Unlock()
+		ex.P.mergeNotes(in.models, in.assumes)
 		ex.res.mu.Lock()
 		ex.res.Ends[end]++
 		ex.res.Steps += in.steps
